@@ -147,14 +147,27 @@ def run(prog, rep, tier):
             dv = view(prog, kk)
             dbrs = branches(dv)
             rend_ = Renderer(dv, depth=8)
-            for bi, t in dv.calls(re.compile(r".*Vec::<T(, A)?>::push$")):
+            rend_n = Renderer(dv, depth=14, through_names=True)
+            for bi, t in dv.calls(re.compile(r".*(Vec::<T(, A)?>::push|Extend::extend|Vec::<T(, A)?>::extend|Vec::<T(, A)?>::extend_from_slice)$")):
                 if "IpAddr" not in t["f"].get("ga", ""):
                     continue
-                tgt = rend_.operand(t["args"][0], 8)
-                if "removed_nexthops" not in expr_vars(tgt):
-                    continue
                 n_nh += 1
-                bad = sorted({c.split("::")[-1] for g, l, h in flat_guards(dv, bi, dbrs) for c in expr_calls(g) if re.search(r"RibEntry::(is_filtered|is_nexthop_invalid)$", c)})
+                bad = {c.split("::")[-1] for g, l, h in flat_guards(dv, bi, dbrs) for c in expr_calls(g) if re.search(r"RibEntry::(is_filtered|is_nexthop_invalid)$", c)}
+                if not t["f"]["name"].endswith("::push") and len(t["args"]) > 1:
+                    # iterator form: the filters feeding the extend are closures in the chain
+                    src = rend_n.operand(t["args"][1], 14)
+                    for x in walk(src):
+                        ck = None
+                        if isinstance(x, tuple) and x and x[0] == "agg" and x[1] == "closure":
+                            ck = x[2]
+                        if isinstance(x, tuple) and x and x[0] == "call" and x[1].startswith("closure::"):
+                            ck = x[1][len("closure::"):]
+                        if ck and ck in prog.ix:
+                            for c in prog.callees(ck):
+                                nmc = prog.name(c)
+                                if re.search(r"RibEntry::(is_filtered|is_nexthop_invalid)$", nmc):
+                                    bad.add(nmc.split("::")[-1])
+                bad = sorted(bad)
                 if bad:
                     r1.fail("rustybgp_table::Table::" + m, "unregister-only-eligible", "Table::%s hands back a removed path's next hop only when %s: filtered or next-hop-invalid paths were registered too, "
                             "so their registrations are never released" % (m, " / ".join(bad)), dv.loc(bi))
